@@ -202,6 +202,18 @@ def work_substances(idx, chunk, seed, reps):
                     if r2 is not None and expect_eq(part, "input_of_result", q2, r2, a, i.d):
                         part.count("inverse_ok")
                         part.seen("%s|%s|inverse" % (sname, pname))
+                # A4b: an amount that already has the dimensionality of the side being asked for is a wrong amount too
+                if o.d and dims_key(o.d) != dims_key(i.d):
+                    q4 = "%s of (%s %s %s)" % (on, lit(a), base_product(o.d), rs)
+                    r4 = ask(part, probe, q4)
+                    if r4 is not None:
+                        kind4 = (r4.get("r") or {}).get("kind", "")
+                        if kind4 in ("number", "duration", "conversion", "substance"):
+                            part.violation({"kind": "wrong_dimension_amount_accepted", "case": "amount has the asked side's dimensionality"},
+                                           {"query": q4, "reply": (r4.get("text") or "")[:250]},
+                                           "asking for the output of an amount that is itself an output was answered")
+                        elif kind4 == "err_conformance":
+                            part.count("wrong_side_refused")
                 # A4: wrong dimensionality is refused with a conformance error
                 wk = rng.choice(ckeys)
                 if wk != dims_key(i.d):
